@@ -363,3 +363,15 @@ PROPS['C13']['floor'] = {'quick': 17, 'thorough': 17}
 PROPS['C03']['kani']['quick'] += ['ttl/put_n2_s2', 'ttl/update_n2_s2', 'ttl/delete_n2_s2']
 PROPS['C03']['kani_meta'].update(BND(['ttl/put_n2_s2', 'ttl/update_n2_s2', 'ttl/delete_n2_s2']))
 PROPS['C03']['floor'] = {'quick': 13, 'thorough': 17}
+
+# the sweeper's and the worker's delete hooks are verified as functions (closure bodies extracted); C10 also depends on
+# put_or_update registering added / removed / changed expiries correctly
+PROPS['C10']['verus'] = ['worker', 'api']
+PROPS['C10']['verus_only'] = {'worker': [r'verif_sweeper_store_hook', r'verif_sweeper_evict_hook', r'CommandExecutor::delete$', r'CommandExecutor::put_with_ttl$'],
+                              'api': [r'CacheD::put_or_update']}
+PROPS['C10']['floor'] = {'quick': 16, 'thorough': 19}
+PROPS['C10']['assumptions'] = PROPS['C10']['assumptions'] + WORKER_ASSUME + API_ASSUME
+PROPS['C10']['explanation'] += ' Verus: the sweeper hook chain (closure bodies of CacheD::ttl_ticker, extracted) removes the weight entry and the Store entry of exactly the expired id and is the identity for an id that is no longer charged; put_or_update registers every expiry change in the ticker.'
+PROPS['C10']['not_covered'] = ['"eventually removed" (liveness over the tick schedule visiting every shard residue) is NOT decided']
+PROPS['C05']['explanation'] += ' The worker\'s delete hook and the sweeper\'s hook chain are verified as functions (closure bodies extracted from spin / ttl_ticker).'
+PROPS['C05']['not_covered'] = ['put racing upsert / eviction racing upsert from another thread (put_or_update updates the Store and the ticker outside the worker): not explored']
